@@ -68,6 +68,7 @@ type Env struct {
 	violSeen  map[string]int
 	curPhase  string
 	curCase   int
+	dsets     map[string]map[uint64]struct{}
 }
 
 func NewEnv(prop, tier string, seed int64) *Env {
@@ -149,6 +150,22 @@ func (e *Env) Eval(sig string, nontrivial bool) {
 	e.mu.Unlock()
 }
 
+// Distinct counts distinct values per key (e.g. interleaving signatures);
+// the counts appear in the evidence counters as "distinct.<key>".
+func (e *Env) Distinct(key, value string) {
+	e.mu.Lock()
+	if e.dsets == nil {
+		e.dsets = map[string]map[uint64]struct{}{}
+	}
+	m := e.dsets[key]
+	if m == nil {
+		m = map[uint64]struct{}{}
+		e.dsets[key] = m
+	}
+	m[hash64(value)] = struct{}{}
+	e.mu.Unlock()
+}
+
 func (e *Env) Count(key string, n int64) {
 	e.mu.Lock()
 	e.counters[key] += n
@@ -222,6 +239,9 @@ func (e *Env) Snapshot(done bool) *Result {
 	c := map[string]int64{}
 	for k, v := range e.counters {
 		c[k] = v
+	}
+	for k, m := range e.dsets {
+		c["distinct."+k] = int64(len(m))
 	}
 	return &Result{
 		Prop: e.Prop, Evaluations: e.evals, Distinct: d, Samples: append([]any(nil), e.samples...),
